@@ -641,6 +641,183 @@ def c08_6(ck, prog):
         r.violation('lookup:unknown-fallback', lk.name, AUTH, lk.line, 'unrecognised words do not map to UNKNOWN')
 
 
+def c08_7(ck, prog):
+    r = ck.rule('C08.7', 'the anonymous switch has one source: only the <allow_anonymous/> element sets it, an '
+                'included file hands on exactly its own value of each option, the context copies the parser\'s '
+                'value and every accepted connection gets the context\'s value', 'WHO',
+                breaks='ANONYMOUS peers are admitted on a bus whose configuration never enabled anonymous access',
+                floor=10)
+    CP = 'bus/config-parser.c'
+    enum = prog.enums.get('ELEMENT_ALLOW_ANONYMOUS')
+    if enum is None:
+        raise AnalysisBroken('ELEMENT_ALLOW_ANONYMOUS vanished')
+    # 1. writers of BusConfigParser.allow_anonymous
+    sb = prog.fn('start_busconfig_child', CP)
+
+    def akey(atom, resolve):
+        if atom[0] == 'cmp' and atom[1] == '==' and is_ref(atom[2], 'element_type') and is_int(atom[3]):
+            return ('etype', atom[3]['v'], frozenset([atom[2]['id']]))
+        return None
+    seen = [0]
+
+    def on_event(user, ev, ctx):
+        for lhs, how, rhs in written_lvalues(ev):
+            if is_member(lhs, 'allow_anonymous', 'BusConfigParser'):
+                seen[0] += 1
+                ok = any(k[0] == 'etype' and k[1] == enum and v is True for k, v in ctx.atoms().items())
+                if not ok or not is_int(rhs) or rhs['v'] != 1:
+                    ctx.report('parser->allow_anonymous is set (%s) outside the <allow_anonymous> element branch'
+                               % estr(rhs), ev['line'], key='element-branch')
+        return user
+    ex = Explorer(sb, on_event=on_event, atom_key=akey, track=None, cap=400000).run()
+    if not seen[0]:
+        r.violation('start_busconfig_child:sets-allow_anonymous', sb.name, CP, sb.line,
+                    'the <allow_anonymous> element no longer sets parser->allow_anonymous')
+    elif ex.reports:
+        r.from_reports(ex.reports, keyfn=lambda k, rep: 'start_busconfig_child:%s' % k)
+    else:
+        r.ok('start_busconfig_child:allow_anonymous-only-under-its-element')
+    lib.who_writes_field(prog, r, 'BusConfigParser', 'allow_anonymous', {'start_busconfig_child', 'merge_included'})
+    # 2. merge_included: every option of the including parser is fed from the same option of the included one
+    mi = prog.fn('merge_included', CP)
+    p0, p1 = mi.params[0]['id'], mi.params[1]['id']
+    preds = mi.preds()
+
+    def fields_of(e, pid):
+        return {x['field'] for x in walk(e) if x.get('k') == 'member' and x.get('rec') == 'BusConfigParser'
+                and is_ref(x.get('base')) and x['base'].get('id') == pid}
+    n = 0
+
+    def controlling(bid):
+        b = bid
+        ctl = set()
+        hops = 0
+        while hops < 4:
+            ps = preds.get(b, [])
+            if len(ps) != 1:
+                t = mi.blocks[b].get('term')       # loop header: a while condition controls its own body
+                if t and t.get('cond') is not None:
+                    ctl |= fields_of(t['cond'], p1)
+                    for ev in mi.blocks[b]['events']:
+                        if ev['ev'] == 'assign':
+                            ctl |= fields_of(ev['e'], p1)
+                break
+            b = ps[0]
+            t = mi.blocks[b].get('term')
+            if t and t.get('cond') is not None:
+                ctl |= fields_of(t['cond'], p1)
+                for ev in mi.blocks[b]['events']:
+                    if ev['ev'] == 'assign':
+                        ctl |= fields_of(ev['e'], p1)
+                if ctl:
+                    break
+            hops += 1
+        return ctl
+    for bid, blk in mi.blocks.items():
+        for ev in blk['events']:
+            pairs = []
+            if ev['ev'] == 'assign':
+                t = fields_of(ev['e']['l'], p0)
+                if t:
+                    pairs.append((t, fields_of(ev['e']['r'], p1) | controlling(bid)))
+            elif ev['ev'] == 'call':
+                t = set().union(*[fields_of(a, p0) for a in ev['e']['args']]) if ev['e']['args'] else set()
+                if t:
+                    sfs = set().union(*[fields_of(a, p1) for a in ev['e']['args']])
+                    pairs.append((t, sfs or controlling(bid)))
+            for tgt, src in pairs:
+                for f in sorted(tgt):
+                    n += 1
+                    key = 'merge_included:%s' % f
+                    if f in src and not (src - {f}):
+                        r.ok(key, {'site': '%s:%d' % (CP, ev['line'])})
+                    else:
+                        r.violation(key, mi.name, CP, ev['line'], 'parser->%s is fed from included->%s' % (
+                            f, ', '.join(sorted(src)) or '(nothing)'))
+    if n < 8:
+        raise AnalysisBroken('merge_included: only %d merged options recognised' % n)
+    # 3. getter, context, connection
+    g = prog.fn('bus_config_parser_get_allow_anonymous', CP)
+    rets = [ev.get('e') for b, i, ev in g.events() if ev['ev'] == 'return']
+    if rets and all(x is not None and is_member(x, 'allow_anonymous', 'BusConfigParser') for x in rets):
+        r.ok('bus_config_parser_get_allow_anonymous:returns-field')
+    else:
+        r.violation('bus_config_parser_get_allow_anonymous:returns-field', g.name, CP, g.line,
+                    'the getter does not return parser->allow_anonymous')
+    lib.who_writes_field(prog, r, 'BusContext', 'allow_anonymous', {'process_config_first_time_only'},
+                         value_ok=lambda f, how, rhs: None if is_call(rhs, 'bus_config_parser_get_allow_anonymous')
+                         else 'context->allow_anonymous is set from %s, not from the parser' % estr(rhs))
+    sites = [(f, c) for f, b, i, c in prog.call_sites('dbus_connection_set_allow_anonymous') if prog.is_production(f)
+             and f.file.startswith('bus/')]
+    if not sites:
+        r.violation('bus:set_allow_anonymous', 'new_connection_callback', 'bus/bus.c', None,
+                    'accepted connections no longer receive the context\'s anonymous switch')
+    for f, c in sites:
+        key = '%s:set_allow_anonymous' % f.name
+        if is_member(c['args'][1], 'allow_anonymous', 'BusContext'):
+            r.ok(key)
+        else:
+            r.violation(key, f.name, f.file, c['line'], 'dbus_connection_set_allow_anonymous is given %s, not '
+                        'context->allow_anonymous' % estr(c['args'][1]))
+    lib.who_writes_field(prog, r, 'DBusTransport', 'allow_anonymous',
+                         {'_dbus_transport_set_allow_anonymous', '_dbus_transport_init_base'})
+
+
+def c08_8(ck, prog):
+    r = ck.rule('C08.8', 'the server\'s mechanism restriction cannot be lost silently: a failed '
+                '_dbus_auth_set_mechanisms leaves "all mechanisms allowed", so every caller on the accept path '
+                'tests the result and gives the connection up on failure; only the server hands its configured '
+                'list down', 'DOM',
+                breaks='under memory pressure a server restricted to EXTERNAL accepts DBUS_COOKIE_SHA1 / ANONYMOUS',
+                floor=3)
+    SETTERS = {'_dbus_transport_set_auth_mechanisms', '_dbus_auth_set_mechanisms'}
+    n = 0
+    for f in lib.prod_funcs(prog):
+        if not f.file.startswith('dbus/'):
+            continue
+        sites = [(b, i, c) for b, i, c in f.calls() if c.get('callee') in SETTERS]
+        if not sites:
+            continue
+        ids = {c['id']: c for b, i, c in sites}
+
+        def used(cid):
+            for b, i, ev in f.events():
+                tops = []
+                if ev['ev'] == 'decl':
+                    tops = [ev.get('init')]
+                elif not (ev['ev'] == 'call' and ev['e'].get('id') == cid):
+                    tops = [ev.get('e')]
+                for top in tops:
+                    if isinstance(top, dict) and any(x.get('k') == 'call' and x.get('id') == cid for x in walk(top)):
+                        return True
+            for blk in f.blocks.values():
+                t = blk.get('term')
+                if t and t.get('cond') is not None and any(x.get('k') == 'call' and x.get('id') == cid
+                                                           for x in walk(t['cond'])):
+                    return True
+            return False
+
+        def on_exit(user, ctx, ret, ev, f=f, ids=ids):
+            for cid, c in ids.items():
+                if ctx.result_known(cid) is False and ctx.ret_status(ret) == 'ok' and f.ret != 'void':
+                    ctx.report('%s reports success on a path where %s failed' % (f.name, c['callee']),
+                               ev['line'] if ev else f.endline, key=('ignored', c['line']))
+        ex = Explorer(f, on_exit=on_exit, calls=SETTERS, track='auto', cap=300000).run()
+        for b, i, c in sites:
+            n += 1
+            key = '%s:%s' % (f.name, c['callee'])
+            mine = [rep for k, rep in ex.reports.items() if k[1] == c['line']]
+            if not used(c['id']):
+                r.violation(key, f.name, f.file, c['line'], 'the result of %s is dropped: on out-of-memory the '
+                            'restriction is silently not applied' % c['callee'])
+            elif mine:
+                r.violation(key, f.name, f.file, mine[0]['line'], mine[0]['reason'], mine[0]['path'])
+            else:
+                r.ok(key, {'site': '%s:%d' % (f.file, c['line'])})
+    if n < 3:
+        raise AnalysisBroken('only %d mechanism-restriction call sites found' % n)
+
+
 def run(ck):
     ck.explanation = (
         'Static rules over dbus/dbus-auth.c, dbus/dbus-transport.c, dbus/dbus-transport-socket.c: the server\'s '
@@ -662,3 +839,5 @@ def run(ck):
         c08_4(ck, prog)
         c08_5(ck, prog)
         c08_6(ck, prog)
+        c08_7(ck, prog)
+        c08_8(ck, prog)
